@@ -706,10 +706,18 @@ impl Drop for OsOpaqueIpcChannel {
     fn drop(&mut self) {
         // Make sure we don't leak!
         //
-        // The `OsOpaqueIpcChannel` objects should always be used,
+        // The `OsOpaqueIpcChannel` objects are normally used,
         // i.e. converted with `to_sender()` or `to_receiver()` --
-        // so the value should already be unset before the object gets dropped.
-        debug_assert!(self.fd == -1);
+        // in which case the value is already unset when the object gets dropped.
+        // A message that is dropped without being (completely) deserialised,
+        // or a receive that fails after the descriptors arrived,
+        // leaves unconverted ones behind though: close those.
+        if self.fd >= 0 {
+            unsafe {
+                let result = libc::close(self.fd);
+                assert!(thread::panicking() || result == 0);
+            }
+        }
     }
 }
 
